@@ -172,12 +172,21 @@ def run(prog, chk):
         for w in waits:
             wp = f.node_pos(w)
             atoms = fin.dominating_atoms(f, wp)
-            failed = [a for a in atoms if a[0] != "case" and any(o in f.desc(a[0]) for o in ops) and
+            failed = [(a, [o for o in ops if o in f.desc(a[0])][0]) for a in atoms if a[0] != "case" and any(o in f.desc(a[0]) for o in ops) and
                       ((not a[1] and f.nodes[f.strip(a[0])]["k"] != "UnaryOperator") or (a[1] and f.nodes[f.strip(a[0])]["k"] == "UnaryOperator"))]
+            # the outcome may be kept in a bool local (`popped = queue.pop(job); if(!popped) ...`): the definition reaching the test counts
+            for a in atoms:
+                if a[0] == "case" or a[1]:
+                    continue
+                x_ = f.strip(a[0])
+                nx_ = f.nodes[x_]
+                if nx_["k"] == "DeclRefExpr" and nx_["ref"].get("dk") == "local":
+                    rd_ = q.reaching_def(f, nx_["ref"]["id"], x_)
+                    if rd_ is not None and f.strip(rd_) in ops:
+                        failed.append((a, f.strip(rd_)))
             # the re-check: an operation call dominated by the reset and failing on the edge to the wait
             recheck = None
-            for a in failed:
-                opn = [o for o in ops if o in f.desc(a[0])][0]
+            for a, opn in failed:
                 if any(f.dominates_pos(f.node_pos(r), f.node_pos(opn)) and q.reaches(f, r, opn) for r in resets):
                     recheck = opn
             if recheck is None:
@@ -275,7 +284,16 @@ def run(prog, chk):
         f = fn1(prog, lambda f: f.gname == PRIV + "FastSignal::" + nm, "FastSignal::" + nm)[0]
         a = [i for i in q.calls(f) if f.nodes[i].get("callee") == prim and "_state" in f.r(i)]
         sc = callees(f, sigcall)
-        ok = bool(a) and bool(sc) and all(any(x[0] != "case" and a[0] in f.desc(x[0]) and x[1] and fin.key(f, x[0]).endswith("== %d)" % cmpv) for x in fin.dominating_atoms(f, f.node_pos(s))) for s in sc)
+        # decision table over the previous state the atomic returns: the Signal is touched exactly on the transition
+        ok = bool(a) and bool(sc)
+        if ok:
+            for pv in (0, 1):
+                seen_, end_, _fv = fin.walk_vals(f, f.entry, {fin.key(f, a[0]): pv})
+                called = any(s_ in seen_ for s_ in sc)
+                if isinstance(end_, str) and end_.startswith("undetermined"):
+                    ok = False
+                elif called != (pv == cmpv):
+                    ok = False
         if ok:
             chk.ok("C10.d", f, "FastSignal::%s changes the state atomically and forwards only on a transition" % nm, "%s:%s" % (f.file, f.line), "dominating atom on the atomic's result", evals=2)
         else:
